@@ -1,4 +1,4 @@
-From Hannibal Require Import Model.Sys.
+From Hannibal Require Import Model.Sys Inv.C17.
 From Hannibal Require Props.C17.
 Check Props.C17.C17_value_is_exit_value :
   forall s o v s' p, step s (EvRet o (RSomeV v)) = Acc s' -> ops s o = Some p -> op_reg p = None ->
@@ -8,3 +8,13 @@ Check Props.C17.C17_second_join_gets_none :
   forall s o c j s' a js x, step s (EvOp o c j OJoin 0 0) = Acc s' -> joins s j = Some (a, js) ->
     actors s a = Some x -> a_task x <> THeld ->
     exists p, ops s' o = Some p /\ op_imm p = Some RNone.
+Check Props.C17.C17_one_taker_per_actor :
+  forall tr s, run init tr = Acc s ->
+  (forall o1 o2 p1 p2, ops s o1 = Some p1 -> ops s o2 = Some p2 -> taker p1 -> taker p2 ->
+     op_a p1 = op_a p2 -> o1 = o2)
+  /\ (forall o p, ops s o = Some p -> taker p -> exists x, actors s (op_a p) = Some x /\ a_task x = THTaken).
+Check Props.C17.C17_value_handed_out_at_most_once :
+  forall t1 t2 s1 s1' s2 s2' o1 o2 r1 r2 p1 p2,
+  run init t1 = Acc s1 -> step s1 (EvRet o1 r1) = Acc s1' -> run s1' t2 = Acc s2 -> step s2 (EvRet o2 r2) = Acc s2' ->
+  ops s1 o1 = Some p1 -> ops s2 o2 = Some p2 -> joinish p1 -> joinish p2 -> op_a p1 = op_a p2 ->
+  is_value r1 -> is_value r2 -> False.
